@@ -8,6 +8,14 @@ def I(n):
     return ["i", n]
 
 
+def T(b):                    # bool
+    return ["t", bool(b)]
+
+
+def F(h):                    # the float h/2
+    return ["f", h]
+
+
 def S(s):
     return ["s", s]
 
@@ -45,8 +53,14 @@ def RAISE(c, args):
 
 RECS = [["r", 0, [[0, I(1)], [1, S("ab")]]], ["r", 1, [[0, I(2)], [1, S("a")]]],
         ["r", 2, [[0, I(1)], [1, S("ab")]]], ["r", 3, [[0, I(3)], [1, S("")], [2, L([I(1)])]]],
-        ["r", 4, [[0, I(0)], [1, S("")], [2, L([])]]]]
-FALSY = [I(0), S(""), B(b""), NONE, L([]), D([])]
+        ["r", 4, [[0, I(0)], [1, S("")], [2, L([])]]],
+        ["r", 5, [[0, T(False)], [1, S("")], [2, D([])], [3, NONE]]],
+        ["r", 6, [[0, F(2)], [1, S("ab")], [2, L([L([])])], [3, T(True)]]]]
+REC_EMPTY = ["r", 7, []]     # an object without attributes
+FALSY = [I(0), S(""), B(b""), NONE, L([]), D([]), T(False), F(0)]
+NUMS = [I(0), I(1), T(False), T(True), F(0), F(2), F(1), I(2), I(-1), F(3), F(4)]
+SCALAR_KINDS = ("i", "t", "f", "s", "b", "n")
+NUM_KINDS = ("i", "t", "f")
 USER_EXC = (1, 2, 3, 4, 7)
 STRS = ["", "a", "ab", "abc", "b", "c", "abcabc", "f1", "d1", "nope", "d1/g", "d1/../f1", "a\nc", "xé"]
 BYTESS = [b"", b"a", b"ab", b"abc", b"\x00\xff"]
@@ -54,7 +68,7 @@ BYTESS = [b"", b"a", b"ab", b"abc", b"\x00\xff"]
 
 def is_plain(v):
     k = v[0]
-    if k in "isbn":
+    if k in SCALAR_KINDS:
         return True
     if k == "l":
         return all(is_plain(x) for x in v[1])
@@ -66,7 +80,37 @@ def is_plain(v):
 
 
 def is_scalar(v):
-    return v[0] in "isbn"
+    return v[0] in SCALAR_KINDS
+
+
+def num2(v):
+    """twice the numeric value of an int / bool / float value"""
+    return 2 * v[1] if v[0] == "i" else (2 if v[1] else 0) if v[0] == "t" else v[1]
+
+
+def knorm(k):
+    from .c06 import key_norm
+    return key_norm(k)
+
+
+def twin(rng, v):
+    """a value == v of another type where one exists (1 / True / 1.0, 0 / False / 0.0), inside containers too"""
+    k = v[0]
+    if k in NUM_KINDS:
+        n = num2(v)
+        alts = [F(n)]
+        if n % 2 == 0:
+            alts.append(I(n // 2))
+        if n in (0, 2):
+            alts.append(T(n == 2))
+        alts = [a for a in alts if a != v]
+        return rng.choice(alts) if alts else v
+    if k == "l":
+        return L([twin(rng, x) if rng.random() < 0.6 else x for x in v[1]])
+    if k == "d":
+        return D([[twin(rng, kk) if kk[0] in NUM_KINDS and rng.random() < 0.5 else kk,
+                   twin(rng, x) if rng.random() < 0.5 else x] for kk, x in v[1]])
+    return v
 
 
 def strings_in(v, out):
@@ -153,7 +197,47 @@ FAM = {
         "vals": FALSY + [I(1)],
         "leaves": [["Equals", I(0)], ["Equals", S("")], ["Equals", NONE], ["Equals", L([])], ["Equals", D([])],
                    ["Equals", B(b"")], ["Is", NONE], ["NotEquals", I(0)], ["IsInstance", ["none"]], ["Contains", S("")],
-                   ["Contains", NONE]],
+                   ["Contains", NONE], ["Equals", T(False)], ["IsInstance", ["int"]], ["NotEquals", F(0)]],
+    },
+    # numbers equal across types: 1 == True == 1.0, 0 == False == 0.0; bool is an int
+    "NUM": {
+        "vals": [I(0), I(1), T(False), T(True), F(0), F(2), F(1), I(2)],
+        "leaves": [["Equals", I(1)], ["Equals", T(False)], ["LessThan", T(True)], ["IsInstance", ["int"]],
+                   ["NotEquals", F(2)], ["GreaterThan", F(1)], ["IsInstance", ["bool"]], ["IsInstance", ["float"]],
+                   ["Equals", F(0)], ["Is", NONE], ["AfterPreprocessing", 4, False, ["Equals", I(2)]],
+                   ["AfterPreprocessing", 3, True, ["SameMembers", [I(1)]]]],
+    },
+    "LIST_NUM": {
+        "vals": [L([]), L([T(False)]), L([I(0), T(False), F(0)]), L([I(1), T(True)]), L([F(2), I(0)]), L([F(1), T(True)]),
+                 L([T(True), T(True)])],
+        "leaves": [["SameMembers", [T(True), I(1)]], ["Contains", T(True)], ["Equals", L([I(1), I(1)])],
+                   ["SameMembers", [F(0), F(0), F(0)]], ["Contains", F(0)], ["SameMembers", [I(0), F(2)]],
+                   ["Equals", L([F(0)])], ["HasLength", 2], ["Contains", F(1)]],
+        "elem": "NUM",
+    },
+    # dict keys that collide across types; falsy / cross-type values under common, surplus and missing keys
+    "DICT_NUM": {
+        "vals": [D([]), D([[I(1), I(1)]]), D([[T(True), I(1)]]), D([[F(2), T(True)], [I(0), I(0)]]),
+                 D([[I(0), F(2)], [I(1), T(False)]]), D([[T(False), I(1)], [T(True), F(0)], [I(7), T(False)]]),
+                 D([[I(1), F(2)], [F(14), F(0)]]), D([[I(7), T(False)]]), D([[F(0), I(1)], [I(7), I(1)]])],
+        "leaves": [["KeysEqual", [I(0), T(True)]], ["Contains", T(True)], ["Equals", D([[I(1), I(1)]])],
+                   ["KeysEqual", [F(2)]], ["Contains", F(0)], ["Contains", F(1)], ["HasLength", 2],
+                   ["Equals", D([[T(False), T(True)], [T(True), I(0)]])], ["KeysEqual", [I(1), T(True)]]],
+        "dkeys": [I(1), T(False)], "delem": "NUM",
+    },
+    # what sits under a dict key / in a list / in an attribute is itself a container, possibly empty: the inner
+    # matchers return every sort of mismatch object (MismatchesAll with no children, DictMismatches, ...)
+    "DICT_LIST": {
+        "vals": [D([]), D([[S("a"), L([])]]), D([[S("a"), L([I(1)])], [S("b"), L([])]]),
+                 D([[S("a"), L([I(0)])], [S("z"), L([])]]), D([[S("a"), L([I(1), I(2)])], [S("b"), L([I(0)])]])],
+        "leaves": [["HasLength", 1], ["Contains", S("b")]],
+        "dkeys": [S("a"), S("b")], "delem": "LIST_INT", "cap": 14,
+    },
+    "LIST_LIST": {
+        "vals": [L([]), L([L([])]), L([L([I(1)]), L([])]), L([L([]), L([I(1), I(2)])]), L([L([I(1)]), L([I(1)])]),
+                 L([L([I(0)])])],
+        "leaves": [["HasLength", 1], ["Contains", L([])], ["Equals", L([L([])])]],
+        "elem": "LIST_INT", "cap": 14,
     },
     "EXC": {
         "vals": [X(2, [S("a")]), X(2, []), X(4, [S("k")]), X(7, [I(1)]), X(5, []), X(1, [S("a"), I(1)]), X(2, [S("")]),
@@ -180,6 +264,13 @@ CALL_ALL = [RET(I(0)), RET(NONE), RET(I(1)), RAISE(2, [S("a")]), RAISE(4, [S("k"
             RAISE(6, [I(3)])]
 
 
+def spread(el, cap):
+    """at most cap of the expressions, spread evenly over the list (all when cap is None)"""
+    if not cap or len(el) <= cap:
+        return el
+    return [el[(i * len(el)) // cap] for i in range(cap)]
+
+
 def enum(fam, d, nleaves=None, _memo={}):
     """every expression of depth <= d of family fam over its first nleaves leaves (all when None)"""
     key = (fam, d, nleaves)
@@ -198,24 +289,27 @@ def enum(fam, d, nleaves=None, _memo={}):
                 out += [["MatchesAll", False, [e1, e2]], ["MatchesAll", True, [e1, e2]], ["MatchesAny", [e1, e2]]]
         if "elem" in f:
             el = enum(f["elem"], d - 1, nleaves)
+            pel = spread(el, f.get("cap"))
             out += [["MatchesListwise", False, []], ["MatchesListwise", True, []], ["MatchesSetwise", 0, []]]
             for e in el:
                 out += [["AllMatch", e], ["AnyMatch", e], ["MatchesListwise", False, [e]],
                         ["MatchesListwise", True, [e]], ["MatchesSetwise", 0, [e]],
                         ["AfterPreprocessing", 1, False, e] if f["elem"] == "INT" else ["AllMatch", ["Not", e]]]
-            for e1 in el:
-                for e2 in el:
+            for e1 in pel:
+                for e2 in pel:
                     out += [["MatchesListwise", False, [e1, e2]], ["MatchesListwise", True, [e1, e2]],
                             ["MatchesSetwise", 0, [e1, e2]]]
-        if fam == "DICT":
-            el = enum("INT", d - 1, nleaves)
+        if fam == "DICT" or "dkeys" in f:
+            k1, k2 = f.get("dkeys", [S("a"), S("b")])
+            el = enum(f.get("delem", "INT"), d - 1, nleaves)
+            pel = spread(el, f.get("cap"))
             for K in ("MatchesDict", "ContainsDict", "ContainedByDict"):
                 out.append([K, []])
                 for e in el:
-                    out.append([K, [[S("a"), e]]])
-                for e1 in el:
-                    for e2 in el:
-                        out.append([K, [[S("a"), e1], [S("b"), e2]]])
+                    out.append([K, [[k1, e]]])
+                for e1 in pel:
+                    for e2 in pel:
+                        out.append([K, [[k1, e1], [k2, e2]]])
         if fam == "REC":
             for e in enum("INT", d - 1, nleaves):
                 out.append(["MatchesStructure", [[0, e]]])
